@@ -1,4 +1,4 @@
-use crate::{ansi::BaudEmulation, Buffer, Caret, Rectangle, Size};
+use crate::{ansi::BaudEmulation, Buffer, Caret, Rectangle, Size, TextPane};
 
 #[derive(Debug, Clone, Copy, PartialEq)]
 pub enum TerminalScrolling {
@@ -193,7 +193,9 @@ impl TerminalState {
                     let first = buf.get_first_visible_line();
                     caret.pos.y = caret.pos.y.clamp(first, first + self.get_height() - 1);
                 } else {
-                    caret.pos.y = caret.pos.y.max(0);
+                    // a plain buffer grows with its content: the cursor may go at most one screen height below the last row
+                    let last = buf.get_line_count().max(buf.get_height()).saturating_add(self.get_height());
+                    caret.pos.y = caret.pos.y.clamp(0, last);
                 }
                 caret.pos.x = caret.pos.x.clamp(0, (self.get_width() - 1).max(0));
             }
